@@ -32,7 +32,7 @@ func escSeg(s string) string {
 	return sb.String()
 }
 
-var segValues = []string{"s1", "b-2", "a b", "100%", "x+y", "q?r", "h#i", "é", "a&b=c", "semi;colon", "at@sign", "dot.", "~t", "a:b", "*", "comma,", "quote\"", "brace{}", "sl\\ash"}
+var segValues = []string{"s1", "b-2", "a b", "100%", "x+y", "q?r", "h#i", "é", "a&b=c", "semi;colon", "at@sign", "dot.", "~t", "a:b", "*", "comma,", "quote\"", "brace{}", "sl\\ash", "a%2Fb", "a%2fb", "%2F", "50%25"}
 
 type restCall struct {
 	name     string
@@ -329,9 +329,25 @@ func init() {
 			if unroutable {
 				kind = 4
 			}
+			extraTags := []string{}
+			if chain && strings.Contains(strings.ToLower(string(mustJSON(call.req))), "%2f") && strings.Contains(string(mustJSON(call.req)), "%2f") {
+				// the literal characters %2f inside a value that spans several path segments
+				extraTags = append(extraTags, "restbind:lower-hex-slash")
+			}
 			c.emit(Case{Suite: "rest.bind", In: L{kind, B(call.name), B(call.target), wantCode, wantDetails, B(badName)},
 				Out: L{reqEqual, respEqual, code, int64(res.Rec.status()), int64(seen.Calls), res.Panic != "", gotDetails, gotMsgOK, int64(res.Rec.headCount())},
-				Tags: []string{"restbind:" + call.name, "restbind.kind:" + []string{"rest-client", "chain", "invalid", "error", "unroutable"}[kind]}, Desc: res.Panic})
+				Tags: append([]string{"restbind:" + call.name, "restbind.kind:" + []string{"rest-client", "chain", "invalid", "error", "unroutable"}[kind]}, extraTags...), Desc: res.Panic})
 		}
 	}
+}
+
+func mustJSON(m proto.Message) []byte {
+	if m == nil {
+		return nil
+	}
+	b, err := protojson.Marshal(m)
+	if err != nil {
+		panic(err)
+	}
+	return b
 }
